@@ -155,13 +155,13 @@ theorem paramIdents_cons_plain (a : List Attr) (n : String) (t : Ty) (xs : List 
     paramIdents (.typed a (.ident false false n none) t :: xs) = n :: paramIdents xs := rfl
 
 /-- names of the user parameters of an impl-block function, after the macro's `__impl` -/
-theorem implMode_namesOk (f : String) (hid : identOk f = true) (us : List FnArg)
+theorem implMode_namesOk (f : String) (hid : identOk f = true) (lt : Option String) (us : List FnArg)
     (hty : ∀ u ∈ us, u.isRecv = false) (sig : Sig) :
     paramNamesOk f us
-      { sig with inputs := (fixParams f (implReceiverArg :: us.map FnArg.stripAttrs)).drop 1 } ["__impl"] = true := by
+      { sig with inputs := (fixParams f (implReceiverWith lt :: us.map FnArg.stripAttrs)).drop 1 } ["__impl"] = true := by
   have hnr : NotRaw (unraw f) := by
     intro rest hr; unfold identOk at hid; rw [hr] at hid; simp at hid
-  let L := implReceiverArg :: us.map FnArg.stripAttrs
+  let L := implReceiverWith lt :: us.map FnArg.stripAttrs
   have htyL : ∀ u ∈ L, u.isRecv = false := by
     intro u hu
     rcases List.mem_cons.mp hu with rfl | hu
@@ -173,8 +173,8 @@ theorem implMode_namesOk (f : String) (hid : identOk f = true) (us : List FnArg)
   have hshape := sameShape_fixParams f L
   have hplain := allPlain_fixParams f L
   match hX : fixParams f L with
-  | [] => rw [hX] at hshape; simp [L, sameShape, implReceiverArg] at hshape
-  | .recv .. :: _ => rw [hX] at hshape; simp [L, sameShape, implReceiverArg] at hshape
+  | [] => rw [hX] at hshape; simp [L, sameShape, implReceiverWith] at hshape
+  | .recv .. :: _ => rw [hX] at hshape; simp [L, sameShape, implReceiverWith] at hshape
   | .typed a0 (.other _ _) t0 :: rest => rw [hX] at hplain; simp [allPlain] at hplain
   | .typed a0 (.ident r0 m0 n0 s0) t0 :: rest =>
     rw [hX] at hplain hok
@@ -189,7 +189,7 @@ theorem implMode_namesOk (f : String) (hid : identOk f = true) (us : List FnArg)
         "__impl" :: (us.filterMap FnArg.providedName).map unraw := by
       have h1 : (us.map FnArg.stripAttrs).filterMap FnArg.providedName = us.filterMap FnArg.providedName := by
         rw [List.filterMap_map]; congr 1; funext a; exact providedName_strip a
-      simp only [L, implReceiverArg, List.filterMap_cons, FnArg.providedName, Pat.providedName, h1, List.map_cons]
+      simp only [L, implReceiverWith, List.filterMap_cons, FnArg.providedName, Pat.providedName, h1, List.map_cons]
       congr 1
     refine ⟨⟨hp, ?_⟩, ?_⟩
     · simp only [List.contains_cons, Bool.not_or, Bool.and_eq_true] at hnf
@@ -240,7 +240,10 @@ theorem T_C16_impl (v : Variant) (attr : Toks) (m : ImplItemIn) (out : Out)
       simp only [Sig.userParams, Bool.false_eq_true, if_false]
       have hty : ∀ u ∈ typedArgs (f.sig.inputs.drop 1), u.isRecv = false := by
         intro u hu; simpa using (List.mem_filter.mp hu).2
-      exact implMode_namesOk f.sig.ident (hids f hf) _ hty tf.sig)
+      obtain ⟨lt, hlt⟩ : ∃ lt, implRecvOf a.dynRef f.sig = implReceiverWith lt := by
+        unfold implRecvOf; split <;> exact ⟨_, rfl⟩
+      rw [hlt]
+      exact implMode_namesOk f.sig.ident (hids f hf) lt _ hty tf.sig)
     h2
   rw [zipAll_map_left] at this
   simpa using this
